@@ -129,7 +129,7 @@ TRUSTED_BASE = [
     "harness/c18.py generators and the Python oracle",
 ]
 ASSUMPTIONS = [
-    "points are non-degenerate as the quantifier says: pairwise distance >= 0.1, and for 'general position' cases sin^2 of every bond angle that defines a plane >= 1e-4 (a separate exactly-collinear stream checks angle in {0, pi} at 1e-6)",
+    "points are non-degenerate as the quantifier says: pairwise distance >= 0.1 (and, in ~15% of the single and batched measurement cases, the same shapes shrunk by 2^-10 / 2^-17 / 2^-24 towards their first point, or with one arm shrunk: arm lengths down to ~1e-7, never coincident), and for 'general position' cases sin^2 of every bond angle that defines a plane >= 1e-4 (a separate exactly-collinear stream checks angle in {0, pi} at 1e-6)",
     "the theorems over R that state textbook agreement carry exactly these non-degeneracy hypotheses (p1 != p2, p3 != p2 for the angle; p2 != p3, resp. no collinear triple, for the dihedral); range, invariance and reversal theorems hold for all inputs of the real model, "
     "which on degenerate inputs (division by zero) is NOT the implementation (Lean x/0 = 0, numpy nan)",
     "the real model has no signed zero: on the exactly planar trans arrangement the implementation may return -pi (through -0.0) where dihedralR = +pi; dihedrals are therefore compared modulo 2 pi and the range demanded of the implementation is the stated closed [-pi, pi]",
@@ -430,12 +430,16 @@ def geom_check(t, model, out: Outcome):
             V(out, "oracle:range", t, "angle outside [0, pi]", observed=a)
         if h is not None and not (-math.pi <= h <= math.pi):
             V(out, "oracle:range", t, "dihedral outside [-pi, pi]", observed=h)
-    # --- oracle: rigid motion / reflection
-    if not close(d0, d1, TOL):
+    # --- oracle: rigid motion / reflection.  The moved points are the exact images ROUNDED to doubles (absolute error up to
+    #     ~ulp(32) per coordinate), so the moved shape is the original one only up to that rounding relative to its arm
+    #     lengths: negligible for ordinary shapes (arms >= 0.1: 3e-13), the dominant term for the shrunk ones.
+    min_arm = min(math.sqrt(float(dot(sub(P[i], P[j]), sub(P[i], P[j])))) for i in range(4) for j in range(i))
+    slack = 64 * 2.0**-52 * 32.0 / min_arm
+    if not close(d0, d1, TOL + 64 * 2.0**-52 * 32.0):
         V(out, "oracle:distance_invariance", t, "distance changes under rigid motion", observed=d1, expected=d0)
-    if not close(a0, a1, tol_a):
+    if not close(a0, a1, tol_a + slack):
         V(out, "oracle:angle_invariance", t, "angle changes under rigid motion", observed=a1, expected=a0)
-    if h0 is not None and angdiff(sgn * h0, h1) > TOL:
+    if h0 is not None and angdiff(sgn * h0, h1) > TOL + 4 * slack:
         V(out, "oracle:dihedral_reflection" if improper else "oracle:dihedral_invariance", t,
           "dihedral does not flip sign under reflection" if improper else "dihedral changes under proper rigid motion", observed=h1, expected=sgn * h0)
     # --- oracle: reversal / symmetry
@@ -1650,12 +1654,27 @@ def gen_motion(rng, improper=None):
     return {"q": q, "h": h, "t": t}
 
 
+def shrink_points(rng, pts):
+    """The same shape at a small scale somewhere in the box: every point moved towards the first one by a factor 2^-k
+    (k = 10, 17, 24: arm lengths of about 1e-3, 1e-5, 1e-7), or only ONE arm made tiny beside ordinary ones.  Still
+    non-degenerate (no coincident points; angles are those of the unscaled shape), still inside [-10,10]^3."""
+    s = 2.0 ** -rng.choice([10, 17, 24])
+    c = pts[0]
+    if rng.random() < 0.7:
+        return [list(c)] + [[c[i] + s * (p[i] - c[i]) for i in range(3)] for p in pts[1:]], f"tiny(2^{int(math.log2(s))})"
+    return [list(c), [c[i] + s * (pts[1][i] - c[i]) for i in range(3)]] + [list(p) for p in pts[2:]], f"one-tiny-arm(2^{int(math.log2(s))})"
+
+
 def gen_geom(rng):
     style = rng.choice(STYLES)
     while True:
         pts = gen_points(rng, style, 4)
+        if rng.random() < 0.15:
+            pts, sub_style = shrink_points(rng, pts)
+            style = style + ":" + sub_style
         if general_position(fpts(pts)):
             break
+        style = style.split(":")[0]
     return {"kind": "geom", "style": style, "pts": hexpts(pts), "motion": gen_motion(rng), "degrees": rng.random() < 0.5}
 
 
@@ -1692,11 +1711,14 @@ def gen_batch(rng):
         i = rng.randrange(4)
         lens[i] = rng.choice([x for x in (2, 3, 4, 5) if x != n])
     style = rng.choice(STYLES)
+    tiny_rows = lens == [n] * 4 and rng.random() < 0.15  # some rows at a small scale (only without broadcasting: rows stay the generated shapes)
     while True:
         rows = []
         for _ in range(max(lens)):
             while True:
                 pts = gen_points(rng, style, 4)
+                if tiny_rows and rng.random() < 0.5:
+                    pts = shrink_points(rng, pts)[0]
                 if general_position(fpts(pts)):
                     rows.append(pts)
                     break
@@ -1707,7 +1729,7 @@ def gen_batch(rng):
         if rws is not None:
             for rw in rws:
                 E = fpts(rw)
-                if not general_position(E) or any(dot(sub(E[i], E[j]), sub(E[i], E[j])) < Fr(1, 100) for i in range(4) for j in range(i)):
+                if not general_position(E) or any(dot(sub(E[i], E[j]), sub(E[i], E[j])) < (Fr(1, 10**20) if tiny_rows else Fr(1, 100)) for i in range(4) for j in range(i)):
                     ok = False
         else:
             for k in (2, 3):
